@@ -217,8 +217,8 @@ func propC14() *PropSpec {
 		ID:          "C14",
 		Rule:        "one case = one feasible path of a Minify method on a concrete document with the fault position k, the fault mode (writer from its k-th call / reader after k bytes / both), the chunking of the reader and the kind of reader error (plain / wrapping io.EOF) symbolic; non-trivial = completes with a distinct symbolic output",
 		Assumptions: []string{"documents are the concrete ones listed in harness/<pkg>/io.go (the input does not influence the claim beyond the number of writes)", "0 <= k <= 64"},
-		Outside:     []string{"(*M).Reader wrapper under reader faults is covered only by the C12 harness (minifier error reaches the consumer)", "cmdMinifier (spawns processes)", "documents other than the listed ones", "goroutines of the wrappers are coroutines switching at the blocking points of the modelled io.Pipe"},
-		Stubs:       []string{"errors.Is: loop over Unwrap without the reflective comparability check", "sort.Slice: reflection-free stable insertion sort", "internal/bytealg leaves: plain Go loops"},
+		Outside:     []string{"(*M).Reader wrapper under reader faults is covered only by the C12 harness (minifier error reaches the consumer)", "documents other than the listed ones", "goroutines of the wrappers are coroutines switching at the blocking points of the modelled io.Pipe"},
+		Stubs:       []string{"errors.Is: loop over Unwrap without the reflective comparability check", "sort.Slice: reflection-free stable insertion sort", "internal/bytealg leaves: plain Go loops", "external-command minifier: os.CreateTemp, (*os.File).Name/Read/Write/ReadFrom/WriteTo/Close, regexp FindString for minify.go's one pattern and (*exec.Cmd).Run of /bin/cat are modelled in harness/root/cmdmin.go (engine-only job)"},
 		Jobs: func(tier string) []Job {
 			var js []Job
 			for _, p := range [][2]string{{"json", "VerifJSONIOFault"}, {"xml", "VerifXMLIOFault"}, {"css", "VerifCSSIOFault"}, {"svg", "VerifSVGIOFault"}, {"html", "VerifHTMLIOFault"}, {"js", "VerifJSIOFault"}} {
@@ -233,6 +233,7 @@ func propC14() *PropSpec {
 			}
 			js = append(js, jobsN(".", "VerifWriterWrapper", rng(0, hi), "Writer wrapper: symbolic producer chunks, underlying writer failing from its k-th call: Write or Close reports it, Close returns")...)
 			js = append(js, jobsN(".", "VerifResponseWriterFault", rng(1, hi), "ResponseWriter over an underlying writer failing from its k-th Write with 4 error kinds")...)
+			js = append(js, Job{Pkg: ".", Fn: "VerifCmdMinifierFault", N: 2, NoNative: true, Desc: "AddCmd minifier (command and temporary files modelled): 5 argument shapes x reader fault after k bytes / writer fault"})
 			js = append(js, Job{Pkg: "json", Fn: "VerifJSONIOTwin", N: 0, ExpectFail: true, Desc: "vacuity twin"})
 			return js
 		},
